@@ -193,8 +193,15 @@ class C13(Property):
                 b, exp = iccma_file(rng, n, atts, rng.choice(ill_i))
             else:
                 b, exp = apx_file(rng, n, atts, rng.choice(ill_a))
-            args = [str(rng.randint(0, n + 1)).encode(), b"+1", b"x", b" 1", b"-0"] if fmt == "iccma" else [b"a", b"zz", b""]
-            argstr = "/".join(hx(a) for a in rng.sample(args, 2) if a)
+            if fmt == "iccma":
+                args = [str(rng.randint(0, n + 1)).encode(), b"+1", b"x", b" 1", b"-0", str(n).encode(), b"01", ("%d " % max(1, n)).encode()]
+            else:
+                # real labels of the file and near misses: prefix, extension, blanks around, other case
+                real = [x.encode() for x in exp[1]] if exp[0] == "ok" else []
+                args = [b"a", b"zz"]
+                for x in rng.sample(real, min(len(real), 3)):
+                    args += [x, x[:-1], x + b"x", b" " + x, x + b" ", x.upper() if x != x.upper() else x.lower()]
+            argstr = "/".join(hx(a) for a in rng.sample(args, min(len(args), 4)) if a)
             e = "ok" if exp[0] == "ok" else "err"
             if exp[0] == "ok":
                 if fmt == "iccma":
